@@ -109,6 +109,12 @@ func ingestParamsFromRequest(r *http.Request) *ingestParams {
 
 func (ctrl *Controller) ingestHandler(w http.ResponseWriter, r *http.Request) {
 	ip := ingestParamsFromRequest(r)
+	if ip.until.Before(ip.from) {
+		// a window that ends before it starts is treated like an empty one: the
+		// profile lands in the 10 second slot of from. The agent sends such a
+		// window when a session stops before its first upload boundary.
+		ip.until = ip.from
+	}
 	var t *tree.Tree
 	t, err := ip.parserFunc(r.Body)
 	if err != nil {
